@@ -252,6 +252,10 @@ def exhaustive_small():
             add(fixed_ip(area))
             area2 = (bytes([1]) * n_nop + tail + bytes([0xee]) * 8)[:8]
             add(fixed_ip(area2))
+    for t in (0x02, 0x44, 0x82, 0x83, 0x20, 0x80, 0xff):    # a 60-byte header whose last byte is a multi-byte option type:
+        for first in (0, 1, 2, 3, 0xff):                    # the length octet would come from the payload (KF-C02-Ip-4)
+            add(fixed_ip(bytes([1]) * 39 + bytes([t]), pl=bytes([first, 0xaa, 0xbb, 0xcc])))
+            add(fixed_ip(bytes([1]) * 39 + bytes([t]), pl=b""))
     for ihl in range(16):                                   # header length field against a 28-byte buffer with options
         add(fixed_ip(bytes([1, 1, 1, 1, 0x88, 4, 0, 7]), ihl=ihl, pl=b""))
         add(fixed_ip(bytes([1, 1, 1, 1, 0x88, 4, 0, 7]), ihl=ihl))
@@ -500,6 +504,9 @@ def known_finding_programs():
         "new", "push IP", "push RawPDU 0102", "show",
         # KF-C02-Ip-3: more than 40 bytes of options
         "new", nozero, "set 0 add_option 130 " + "aa" * 38, "set 0 noop", "push RawPDU 0102", "show",
+        # … far more: 1004 / 1024 bytes of options used to wrap the header length to 0 / 5 (fixed, KF-C02-Ip-2)
+        "new", nozero] + ["set 0 add_option 130 " + "bb" * 249] * 4 + ["push RawPDU 0102", "show",
+        "new", nozero] + ["set 0 add_option 130 " + "bb" * 254] * 4 + ["push RawPDU 0102", "show",
         # KF-C04-Ip-1: options the wire format cannot express
         "new", nozero, "set 0 add_option 1 aabb", "push RawPDU 0102", "show",
         "new", nozero, "set 0 add_option_len 130 7 aabb", "push RawPDU 0102", "show",
